@@ -1,6 +1,7 @@
 package lint
 
 import (
+	"strconv"
 	"strings"
 
 	"github.com/aquilax/hranoprovod-cli/cmd/hranoprovod-cli/v3/internal/reporter"
@@ -16,6 +17,8 @@ func Harness_lint() {
 	src := "# header comment\nh:\n"
 	lineNo := 2
 	var want []string
+	var wantRaw []string
+	var wantNo []int
 	for i := 0; i < L; i++ {
 		switch verifChoose("line", 4) {
 		case 0:
@@ -36,11 +39,13 @@ func Harness_lint() {
 			src += raw + "\n"
 			lineNo++
 			want = append(want, parser.NewErrorBadSyntax(lineNo, raw).Error())
+			wantRaw, wantNo = append(wantRaw, raw), append(wantNo, lineNo)
 		case 2: // bad number
 			raw := "  b: x1"
 			src += raw + "\n"
 			lineNo++
 			want = append(want, parser.NewErrorConversion(nil, "x1", lineNo, raw).Error())
+			wantRaw, wantNo = append(wantRaw, raw), append(wantNo, lineNo)
 		case 3:
 			src += "\n"
 			lineNo++
@@ -65,6 +70,8 @@ func Harness_lint() {
 	if n == len(want) {
 		for i := range want {
 			verifAssert("lint-message-text-and-order", lines[i] == want[i])
+			verifAssert("lint-message-quotes-line", verifContains(lines[i], wantRaw[i]))
+			verifAssert("lint-message-has-line-number", verifContains(lines[i], "line "+strconv.Itoa(wantNo[i])))
 		}
 	}
 	if len(want) == 0 && !silent {
